@@ -1,5 +1,6 @@
 import ProductMD.Properties.C06
 import ProductMD.Model.Loads
+import ProductMD.Model.LoadsForest
 /-!
 # C07 — documents violating a documented constraint are rejected on load
 
@@ -8,10 +9,10 @@ Model (`Model/Loads.lean`): `loads d = fill d >>= fun x => runSteps (checks x) >
 rest of the reader (key lookups, coercions, header version / type gate from the regenerated gate, `Images.add`).
 
 Full statement: `loads d = ok x → ∀ part ∈ parts x, ∀ r ∈ catalogue part.cls, r holds` for every format, plus header and
-required-key rejections.  Proved in full for rpms/modules/extra_files (header + compose, as the quantifier says), images (every
-image of every cell) and discinfo.  For composeinfo and treeinfo the forest reader / the sections after `[tree]` are not
-modelled here (C01/C04's readers): `…_partial` theorems prove the leading sections from the model and the remaining parts for
-ANY reader that makes the validate() calls the regenerated flags show.
+required-key rejections.  Proved for all seven formats: rpms/modules/extra_files (header + compose, as the quantifier says), images (every image of
+every cell), discinfo, composeinfo and treeinfo (every section, every variant of the rebuilt forest at any depth;
+`Model/LoadsForest.lean`).  The readers that a version gate selects for documents older than 1.0 (composeinfo) / 0.4 (treeinfo) are
+not modelled (C05): there the model answers `Err.other`, so the theorems say nothing about such documents.
 -/
 namespace PM
 open PM.Val PM.Val.Loads
@@ -129,47 +130,60 @@ theorem C07_sound_composeinfo_front (d : PyVal) (f : CIFront) (h : ciFrontLoads 
       simp only [hbp, List.mem_cons, List.not_mem_nil, or_false] at hb
       subst hb; simp
 
-/-- the parts a loaded variant contributes: itself, and its own release when it is a layered product -/
-def evLoadParts : Ev → List Part
-  | .exit o => [⟨"composeinfo.Variant", o⟩]
-  | .enter o rel => if isLayeredProduct o then [⟨"composeinfo.Release", rel⟩] else []
-
-/-- composeinfo, the forest: for ANY reader, if the variants it built passed the `validate()` calls that `Variant.deserialize`
-(last statement) and `VariantBase.add` (on its argument) make, every variant at any depth and the release of every layered
-product satisfy the catalogue.  (The reader itself — lookups by `"%s-%s" % (uid, id)` — is C01's model.) -/
-theorem C07_sound_composeinfo_partial (events : List Ev) (h : runSteps (ciVariantChecks events) = .ok ()) :
-    ∀ ev ∈ events, ∀ p ∈ evLoadParts ev, p.Conforms := by
-  intro ev hev p hp
-  unfold evLoadParts at hp
-  refine conforms_of_steps _ h p ?_
-  apply lfl; intro _ _ _ h4 _ h6 _ _ _ _ _ _
-  simp only [ciVariantChecks, List.mem_flatMap]
-  refine ⟨ev, hev, ?_⟩
-  cases ev with
-  | exit o =>
-    simp only [List.mem_cons, List.not_mem_nil, or_false] at hp
-    subst hp; simp [vstep, h6]
-  | enter o rel =>
-    by_cases hl : isLayeredProduct o = true
-    · simp only [hl, if_true, List.mem_cons, List.not_mem_nil, or_false] at hp
-      subst hp; simp [vstep, h4, hl]
-    · simp [hl] at hp
-
-/-- treeinfo, leading sections (header, release, base product, tree) -/
-theorem C07_sound_treeinfo_partial (d : PyVal) (f : TIFront) (h : tiFrontLoads d = .ok f) : ∀ p ∈ tiFrontParts f, p.Conforms := by
+/-- composeinfo (documents of format 1.0 and later; the readers the version gates select for older documents are C05's and
+answer `Err.other` here, never `ok`): every section and EVERY variant of the rebuilt forest, at any depth, and the release of
+every layered product satisfy the catalogue.  The forest is the one `ciFill` rebuilds from the document by following the
+`"%s-%s" % (uid, child)` references; the validate() calls are those of `Variant.deserialize` (last statement) and
+`VariantBase.add` (on its argument) per the generated flags. -/
+theorem C07_sound_composeinfo (d : PyVal) (m : ComposeInfoM) (h : ciLoads d = .ok m) : ∀ p ∈ ciLoadedParts m, p.Conforms := by
   intro p hp
-  refine conforms_of_steps _ (loadsWith_ok _ _ d f h).2 p ?_
-  apply lfl; intro _ h2 _ _ _ _ _ _ _ h10 h11 h12
-  simp only [tiFrontParts, List.mem_append, List.mem_cons, List.not_mem_nil, or_false] at hp
-  simp only [tiFrontChecks, vstep, h2, h10, h11, h12, if_true, List.mem_append, List.mem_cons, List.not_mem_nil, or_false]
-  rcases hp with ((rfl | rfl) | hb) | rfl
+  refine conforms_of_steps _ (loadsWith_ok _ _ d m h).2 p ?_
+  apply lfl; intro h1 _ h3 h4 h5 h6 _ _ _ _ _ _
+  simp only [ciLoadedParts, List.mem_append, List.mem_cons, List.not_mem_nil, or_false, List.mem_flatMap] at hp
+  simp only [ciChecks, ciVariantChecks, vstep, h1, h3, h4, h5, h6, if_true, Bool.true_or, List.mem_append, List.mem_cons, List.not_mem_nil,
+    or_false, List.mem_flatMap]
+  rcases hp with ((rfl | rfl | rfl) | hb) | ⟨ev, hev, hpe⟩
   · simp
   · simp
-  · cases hbp : f.baseProduct with
-    | none => simp [hbp] at hb
-    | some bp =>
-      simp only [hbp, List.mem_cons, List.not_mem_nil, or_false] at hb
-      subst hb; simp
+  · simp
+  · by_cases hl : m.layered = true
+    · simp only [hl, if_true, List.mem_cons, List.not_mem_nil, or_false] at hb
+      subst hb; simp [hl]
+    · simp [hl] at hb
+  · refine Or.inl (Or.inr ⟨ev, hev, ?_⟩)
+    cases ev with
+    | exit o =>
+      simp only [List.mem_cons, List.not_mem_nil, or_false] at hpe
+      subst hpe; simp
+    | enter o rel =>
+      by_cases hl : isLayeredProduct o = true
+      · simp only [hl, if_true, List.mem_cons, List.not_mem_nil, or_false] at hpe
+        subst hpe; simp [hl]
+      · simp [hl] at hpe
+
+/-- treeinfo (documents newer than 0.3; older ones and files without a header are read by the legacy readers, C05's, and answer
+`Err.other` here): every section — present or not — and every variant at any depth satisfy the catalogue -/
+theorem C07_sound_treeinfo (d : PyVal) (m : TreeInfoM) (h : tiLoads d = .ok m) : ∀ p ∈ tiLoadedParts m, p.Conforms := by
+  intro p hp
+  refine conforms_of_steps _ (loadsWith_ok _ _ d m h).2 p ?_
+  obtain ⟨_, h2, _, _, _, _, _, _, _, h10, h11, h12, h13, h14, h15, h16, h17, h18⟩ := C07_flags
+  simp only [tiLoadedParts, List.mem_append, List.mem_cons, List.not_mem_nil, or_false, List.mem_map] at hp
+  simp only [tiChecks, vstep, h2, h10, h11, h12, h13, h14, h15, h16, h17, h18, if_true, List.mem_append, List.mem_cons, List.not_mem_nil,
+    or_false, List.mem_flatMap]
+  rcases hp with ((((rfl | rfl) | hb) | rfl) | ⟨o, ho, rfl⟩) | (rfl | rfl | rfl | rfl | rfl)
+  · simp
+  · simp
+  · by_cases hl : m.layered = true
+    · simp only [hl, if_true, List.mem_cons, List.not_mem_nil, or_false] at hb
+      subst hb; simp [hl]
+    · simp [hl] at hb
+  · simp
+  · refine Or.inl (Or.inl (Or.inl (Or.inl (Or.inl (Or.inl (Or.inr ⟨o, ho, ?_⟩))))))
+    simp
+  · simp
+  · simp
+  · simp
+  · simp
   · simp
 
 /-! ## the header -/
@@ -332,5 +346,25 @@ a compose date that is not 8 digits is refused (the `validate()` at the end of `
 example : isOk (rpmsLoads (exDoc "1.2" "productmd.rpms")) = true ∧ isOk (rpmsLoads (exDoc "1.1" "productmd.images")) = false
     ∧ isOk (rpmsLoads (exDoc "1.2" "productmd.images")) = false ∧ isOk (rpmsLoads (exDoc "1.0" "productmd.images")) = true := by
   decide +kernel
+
+def exVarDoc (id uid : Str) (arches : List Str) (kids : Option (List Str)) : PyVal :=
+  .dict ([(c!"id", .str id), (c!"uid", .str uid), (c!"name", .str c!"n"), (c!"type", .str c!"variant"),
+          (c!"arches", .list (arches.map .str)), (c!"paths", .dict [])]
+         ++ match kids with | some ks => [(c!"variants", .list (ks.map .str))] | none => [])
+
+def exCIDoc (childArches : List Str) (refs : List Str) : PyVal :=
+  .dict [(c!"header", .dict [(c!"version", .str c!"1.2"), (c!"type", .str c!"productmd.composeinfo")]),
+         (c!"payload", .dict [(c!"compose", .dict [(c!"id", .str c!"F-1-20200101.n.0"), (c!"date", .str c!"20200101"), (c!"type", .str c!"nightly"),
+                                                   (c!"respin", .int 0)]),
+                              (c!"release", .dict [(c!"name", .str c!"F"), (c!"short", .str c!"F"), (c!"version", .str c!"1"), (c!"type", .str c!"ga")]),
+                              (c!"variants", .dict [(c!"Server", exVarDoc c!"Server" c!"Server" [c!"x86_64"] (some refs)),
+                                                    (c!"Server-optional", exVarDoc c!"optional" c!"Server-optional" childArches none)])])]
+
+/-- a two-level compose loads (the forest is rebuilt: one top-level variant with one child); the same document with a child arch
+outside its parent's, or with a reference to a child that has no entry, is refused -/
+example : isOk (ciLoads (exCIDoc [c!"x86_64"] [c!"optional"])) = true
+    ∧ (match ciLoads (exCIDoc [c!"x86_64"] [c!"optional"]) with | .ok m => m.variants.length == 1 && (m.variants.map (·.kids.length)) == [1] | _ => false) = true
+    ∧ isOk (ciLoads (exCIDoc [c!"sparc"] [c!"optional"])) = false
+    ∧ isOk (ciLoads (exCIDoc [c!"x86_64"] [c!"optional", c!"ghost"])) = false := by decide +kernel
 
 end PM
